@@ -13,7 +13,8 @@ rule = ("scripts = 'l range <min> <max>' followed by 'l data'/'l run' pairs (run
         "5-symbol alphabet {below, at-min, inside, at-max, above} up to length 7 (quick) / 8 (thorough) for 3 ranges "
         "(40 sequences per script); stream 2 = runs of 65533..65537 points around the per-part limit, degenerate/"
         "inverted/NULL ranges, code/join boundary operands; stream 3 = random dyadic sequences (multiples of 1/8, "
-        "equal neighbours frequent) against random ranges, random code and join operands; values are exactly "
+        "equal neighbours frequent) against random ranges, random code and join operands; stream 4 = general doubles (53-bit "
+        "mantissas in values and range bounds, so the C quotient is rounded); values are exactly "
         "representable so the comparison is exact; non-trivial = a script in which the code reported at least one "
         "part with a cut or trim fraction or with usr != raw (a range boundary was crossed), or a join that succeeded, "
         "counted per distinct script; second driver part (C++ layer, harness/drvxx_linepart.cpp): linepart::array::"
@@ -26,8 +27,10 @@ rule = ("scripts = 'l range <min> <max>' followed by 'l data'/'l run' pairs (run
 assumptions = [
     "doubles are exchanged only as dyadic fractions (|numerator| < 2^53, denominator <= 2^60); rounding of arbitrary "
     "doubles, infinities and NaN are outside the model (exact rationals)",
-    "for the generated operands (numerators < 2^20, denominators <= 2^10) the rounded double quotient and the exact "
-    "quotient have the same floor after scaling by 65536",
+    "the double quotient (bound - x0)/(x1 - x0) carries a relative rounding error of a few 2^-53; its code equals the "
+    "code of the exact quotient unless the exact quotient times 65536 lies within about 2^-36 of a whole number (stream "
+    "fullprec feeds operands with full 53-bit mantissas; theorem code_monotone bounds the effect of such an error by one "
+    "neighbouring code)",
     "C++ layer: the transformation is a test double of layout::graph::transform3 (part() = mpt_linepart_linear with "
     "the range of the dimension), the real layout::graph::transform3 with TransformLimit, or a class inheriting the "
     "default transform::part(); polyline::set / apply_data / value_store are not modelled; the C++ sources are "
@@ -181,9 +184,44 @@ def _random(tier, seed, scale):
     return out
 
 
+def _fullprec(tier, seed, scale):
+    """general doubles: values and range bounds with full 53-bit mantissas (m / 2^52, exactly representable as
+    operands), so the quotient (bound - x0)/(x1 - x0) is rounded by the C code; the stored code must still be the
+    code of the exact fraction (the rounding error 2^-52 is far below one unit 2^-16 of the encoding)"""
+    out = []
+    r = gen.rng(id, tier, seed, "fullprec")
+    n = (60 if tier == "quick" else 900) * scale
+
+    def val(lo, hi):
+        m = r.randrange(lo, hi)
+        return ("-" if m < 0 else "") + "%d/4503599627370496" % abs(m)
+    one = 1 << 52
+    for k in range(n):
+        a = r.randrange(-one, one)
+        b = a + r.randrange(1, one)
+        lines = ["l range %s %s" % (val(a, a + 1), val(b, b + 1))]
+        for _ in range(6):
+            ln = r.choice([2, 3, 5, 8, 13, 30])
+            vals = []
+            for _i in range(ln):
+                x = r.random()
+                if x < 0.45:
+                    vals.append(val(a, b))                      # inside
+                elif x < 0.7:
+                    vals.append(val(a - one, a))                # below
+                elif x < 0.95:
+                    vals.append(val(b + 1, b + one))            # above
+                else:
+                    vals.append(r.choice([val(a, a + 1), val(b, b + 1)]))   # on a bound
+            lines.append("l data " + ",".join(vals))
+            lines.append("l run")
+        out.append(("fp:%d" % k, lines))
+    return out
+
+
 def scripts(tier, seed, scale=1):
     top = 7 if tier == "quick" else 8
-    return _exhaustive(top) + _boundary() + _random(tier, seed, scale)
+    return _exhaustive(top) + _boundary() + _random(tier, seed, scale) + _fullprec(tier, seed, scale)
 
 
 class _XX:
@@ -282,6 +320,27 @@ class _XX:
                 if r.random() < 0.5:
                     lines.append("xl poly")
             out.append(("xxrnd:%d" % k, lines))
+        # polyline::set over value stores (parts for the points, every store applied, points transformed), the
+        # reset of all parts, a dimension the transformation lacks, the C++ wrappers of join / code
+        r3 = gen.rng("C18", tier, seed, "xxpset")
+        for k in range(12 if tier == "quick" else 120):
+            lines = ["xl new"]
+            nd = r3.choice([1, 2, 3])
+            n = r3.choice([1, 2, 3, 5, 9, 17])
+            for d in range(nd):
+                lines.append("xl range %d %s %s" % (d, rg[0], rg[1]))
+                lines.append("xl data %d %s" % (d, ",".join(r3.choice(syms) for _ in range(n))))
+            for trk in ("double", "t3", "plain"):
+                lines += ["xl tr " + trk, "xl pset %d" % nd]
+            lines += ["xl tr double", "xl set %d" % n, "xl apply 0", "xl reset", "xl apply 0", "xl applybad", "xl poly"]
+            out.append(("xxpset:%d" % k, lines))
+        lines = ["xl new"]
+        for c in ["3:3:0:0 2:2:0:0", "3:3:7:0 2:2:0:9", "3:3:0:5 2:2:0:0", "3:2:0:0 2:2:0:0", "65535:65535:0:0 1:0:0:0",
+                  "65534:65534:0:0 1:1:0:0", "1:1:65535:0 1:2:0:65535", "5:5:1:0 7:3:0:32768"]:
+            lines.append("xl wjoin " + c)
+        for v in ["0", "1", "1/2", "1/65536", "1/131072", "65535/65536", "-1/2", "3/2", "21845/65536", "1/3"]:
+            lines.append("xl wcode " + v)
+        out.append(("xxwrap", lines))
         return out
 
     nontrivial = staticmethod(lambda script, c_lines: nontrivial(script, c_lines))
